@@ -8,12 +8,19 @@
      D P M t(0,0,lo) t(0,0,hi) ..           -> sc_ranges_decode on a given table: ";R r..:S s.." per rank
      A nr P v(0,0) ..                       -> (MPI build, exactly P ranks) sc_ranges_adaptive + sc_ranges_decode for
                                               real; every rank writes "maxpeers maxwin;n lo hi ..:R ..:S ..:G table"
+     S seed adv nr P v(0,0) ..              -> (compiled with -DC15_SIM against tools/simmpi) the same as A with P simulated
+                                              ranks under the schedule (seed, adversary):
+                                              "RUN rc=<simmpi code> mem=<sc_memory_status delta>" then one line
+                                              "<rank>: <the A output of that rank>" per rank
    first/last of a T or A case are computed like sc_notify.c does (minimum / maximum peer, or P / -1). */
 #include <sc.h>
 #include <sc_ranges.h>
 #include <stdio.h>
 #include <stdlib.h>
 #include <string.h>
+#ifdef C15_SIM
+#include <simmpi.h>
+#endif
 
 static double captured_nonpeer;
 static int captured;
@@ -52,6 +59,70 @@ static void print_decode (FILE * o, int P, int rank, int M, const int *table)
   for (i = 0; i < ns; i++) { fputc (' ', o); ph (o, send[i]); }
   free (recv); free (send);
 }
+
+/* one rank's part of an A / S case: sc_ranges_adaptive on the world communicator, then sc_ranges_decode */
+static void adaptive_rank (FILE * o, int nr, int P, int r, const long *vs)
+{
+  int *v = (int *) malloc (sizeof (int) * (size_t) (P + 1)), *ranges = (int *) malloc (sizeof (int) * 2 * (size_t) nr);
+  int *table = NULL, io1, io2, n, i;
+  for (i = 0; i < P; i++) v[i] = (int) vs[r * P + i];
+  first_last (P, v, r, &io1, &io2);
+  for (i = 0; i < 2 * nr; i++) ranges[i] = 12345;
+  n = sc_ranges_adaptive (-1, sc_MPI_COMM_WORLD, v, &io1, &io2, nr, ranges, &table);
+  ph (o, io1); fputc (' ', o); ph (o, io2); fputc (';', o); ph (o, n);
+  for (i = 0; i < 2 * nr; i++) { fputc (' ', o); ph (o, ranges[i]); }
+  print_decode (o, P, r, io2, table);
+  fprintf (o, ":G");
+  for (i = 0; i < 2 * io2 * P; i++) { fputc (' ', o); ph (o, table[i]); }
+  fputc ('\n', o);
+  SC_FREE (table);
+  free (v); free (ranges);
+}
+
+#ifdef C15_SIM
+typedef struct { int nr, P; const long *vs; char **out; } simarg_t;
+static void sim_rank (int rank, int size, void *varg)
+{
+  simarg_t *a = (simarg_t *) varg;
+  size_t len = 0;
+  FILE *m = open_memstream (&a->out[rank], &len);
+  adaptive_rank (m, a->nr, a->P, rank, a->vs);
+  fclose (m);
+}
+
+int main (void)
+{
+  char *line = NULL; size_t cap = 0;
+  sc_init (sc_MPI_COMM_NULL, 0, 0, NULL, SC_LP_SILENT);
+  sc_set_abort_handler (simmpi_abort_handler);
+  while (getline (&line, &cap, stdin) > 0) {
+    char *save = NULL, *tok = strtok_r (line, " \n\r", &save);
+    long *a; size_t na = 0, ca = 64;
+    simmpi_opts o; simmpi_report rep; simarg_t sa;
+    int rc, r, mem0;
+    if (tok == NULL || tok[0] != 'S') continue;
+    a = (long *) malloc (ca * sizeof (long));
+    while ((tok = strtok_r (NULL, " \n\r", &save)) != NULL) {
+      if (na == ca) { ca *= 2; a = (long *) realloc (a, ca * sizeof (long)); }
+      a[na++] = hx (tok);
+    }
+    sa.nr = (int) a[2]; sa.P = (int) a[3]; sa.vs = a + 4;
+    sa.out = (char **) calloc ((size_t) sa.P, sizeof (char *));
+    simmpi_opts_default (&o);
+    o.nranks = sa.P; o.seed = (unsigned long) a[0]; o.adversary = (int) a[1];
+    mem0 = sc_memory_status (-1) + sc_memory_status (sc_package_id);
+    rc = simmpi_run (&o, sim_rank, &sa, &rep);
+    printf ("RUN rc=%d mem=%d", rc, sc_memory_status (-1) + sc_memory_status (sc_package_id) - mem0);
+    if (rc) { char *p; for (p = rep.text; *p; ++p) if (*p == '\n') *p = '~'; printf (" %s", rep.text); }
+    printf ("\n");
+    for (r = 0; r < sa.P; r++) { printf ("%d: %s", r, sa.out[r] ? sa.out[r] : "none\n"); free (sa.out[r]); }
+    simmpi_report_free (&rep);
+    free (sa.out); free (a);
+  }
+  fflush (stdout);
+  return 0;
+}
+#else
 
 int main (int argc, char **argv)
 {
@@ -121,23 +192,7 @@ int main (int argc, char **argv)
 #ifdef SC_ENABLE_MPI
         if (P != mpisize) { fprintf (stderr, "c15_harness: case for %d ranks in a run with %d\n", P, mpisize); return 3; }
 #endif
-        {
-          int *v = (int *) malloc (sizeof (int) * (size_t) (P + 1)), *ranges = (int *) malloc (sizeof (int) * 2 * (size_t) nr);
-          int *table = NULL, io1, io2, n;
-          r = mpirank;
-          for (i = 0; i < P; i++) v[i] = (int) a[2 + r * P + i];
-          first_last (P, v, r, &io1, &io2);
-          for (i = 0; i < 2 * nr; i++) ranges[i] = 12345;
-          n = sc_ranges_adaptive (-1, sc_MPI_COMM_WORLD, v, &io1, &io2, nr, ranges, &table);
-          ph (o, io1); fputc (' ', o); ph (o, io2); fputc (';', o); ph (o, n);
-          for (i = 0; i < 2 * nr; i++) { fputc (' ', o); ph (o, ranges[i]); }
-          print_decode (o, P, r, io2, table);
-          fprintf (o, ":G");
-          for (i = 0; i < 2 * io2 * P; i++) { fputc (' ', o); ph (o, table[i]); }
-          fputc ('\n', o);
-          SC_FREE (table);
-          free (v); free (ranges);
-        }
+        adaptive_rank (o, nr, P, mpirank, a + 2);
       }
     }
     else if (op == 'D') {
@@ -159,3 +214,4 @@ int main (int argc, char **argv)
 #endif
   return 0;
 }
+#endif
